@@ -5,6 +5,7 @@ import (
 	"go/ast"
 	"go/token"
 	"go/types"
+	"sort"
 	"strings"
 )
 
@@ -569,6 +570,50 @@ func checkDomainDelete(r *Run, p *Prog, la *LockAnalysis) {
 	}
 	r.Ob("C04.R2.atomic", "remembered positions are re-validated after re-locking", p.Position(lockCall.Pos()), len(remembered) >= 2 && len(compared) == len(remembered),
 		fmt.Sprintf("%d remembered pointer(s), %d compared with the table between the re-lock and the first splice", len(remembered), len(compared)))
+	// ... and on every path: no store to the table is reachable from the re-lock without
+	// passing the comparison of that remembered pointer
+	isCompareOf := func(o types.Object) func(ast.Node) bool {
+		return func(n ast.Node) bool {
+			e, ok := n.(ast.Expr)
+			if !ok {
+				return false
+			}
+			hit := false
+			ast.Inspect(e, func(x ast.Node) bool {
+				be, ok := x.(*ast.BinaryExpr)
+				if !ok || (be.Op != token.NEQ && be.Op != token.EQL) || !exprMentions(fn, be, o) {
+					return true
+				}
+				ast.Inspect(be, func(y ast.Node) bool {
+					if sel, ok := y.(*ast.SelectorExpr); ok && fieldVar(fn, sel) == ptrField {
+						hit = true
+					}
+					return true
+				})
+				return true
+			})
+			return hit
+		}
+	}
+	var names []string
+	byName := map[string]types.Object{}
+	for o := range remembered {
+		names = append(names, o.Name())
+		byName[o.Name()] = o
+	}
+	sort.Strings(names)
+	for _, nm := range names {
+		o := byName[nm]
+		q, vis := c.ReachAvoiding([]Point{lp}, nil, isCompareOf(o))
+		var path []string
+		for pt := range vis {
+			if pt.I >= 0 && pt.I < len(pt.B.Nodes) && isStoreTo(fn, pt.B.Nodes[pt.I], ptrField) {
+				path = q.PathTo(pt)
+			}
+		}
+		r.ObPath("C04.R2.atomic", "every path from the re-lock to the splice re-validates the remembered pointer '"+nm+"'", p.Position(lockCall.Pos()), path == nil,
+			"an insert between the unlocked lookups and the re-lock moves this position; splicing at the stale position removes or keeps the wrong domain", path)
+	}
 }
 
 func checkGCExclusion(r *Run, p *Prog, la *LockAnalysis) {
